@@ -4,7 +4,7 @@ PROP = {
         "level": "exploration",
         "level_text": "Seeded exploration against a reference queue model written from the statement: for every capacity (1,2,3,8,64 quick; 1..64 thorough) seeded op sequences of send / try_send / blocking_send (sync, tokio blocking, tokio async) / receiver polls / stalls run against a hand-polled receiver, and after every sender op the bound pending <= capacity is read through Sender::verif_snapshot() and the queue_length metric together with the model's exact expectations (overflow keeps exactly the new item and counts one event, fallible variants hand back the same item and change nothing, handed-back items never reach the processor, accepted = delivered + discarded-by-counted-overflow). A scripted stalled-receiver phase (processor parked on a gate) runs per capacity against sync::spawn and tokio::spawn workers; a refill scenario wakes a blocked sender on a queue that is full again (it must not give up before its timeout); a concurrent section with 2-8 sender threads, a sampler thread and a stalled/released worker asserts the bound after every op and checks lost == counted overflows x capacity. Held-on-what-was-observed over sampled schedules, not a proof over all interleavings.",
         "level_note": "Trusts Sender::verif_snapshot (reads pending_len under the channel's own lock), the metric reader, the model in harness/mon/src/bin/c09.rs and the hand-written executor. 'Not before T' is the only wall-clock comparison (returning early would be the bug); 'send returns while the processor never does' is observed as completion of the sends - a send that blocked would surface as a lane watchdog (inconclusive), not as a violation. The emitters' own channels (emit_file / emit_otlp len/clear implementations, heap plateau) are covered by the end-to-end lanes of other monitors.",
-        "technique": "runtime monitoring: reference queue model checked after every operation through the state snapshot hook and the queue_length / queue_full_truncated metrics; scripted stalled receiver; multi-threaded bound sampling; Miri on the deterministic sections",
+        "technique": "runtime monitoring: reference queue model checked after every operation through the state snapshot hook and the queue_length / queue_full_truncated metrics; scripted stalled receiver; multi-threaded bound sampling; caller-supplied watchers and metric samplers that park or call back into the channel (causal verdicts: did other callers return before the gate was opened; lock probe from another thread); extreme timeouts; woken-and-lost-the-slot senders; the OTLP emitter's own channel against a stalled collector with metrics read after every emit; every section runs on a bounded helper thread; Miri on the deterministic sections",
         "assumptions": [
             "the batcher-level sections use the channel type Vec<u64>; the emitters' own Channel implementations are exercised by the files-e2e and otlp-e2e lanes (OTLP: per-signal queue against a stalled collector, metrics read after every emit)",
             "closed channels (receiver dropped) are unconstrained: try_send / blocking_send then return Err without the item by design of the API",
